@@ -153,8 +153,11 @@ fn valid_rtcp(rng: &mut Rng) -> Vec<u8> {
 
 pub fn targets() -> Vec<Target> {
     vec![
-        Target { stream: "rtp", entry: "RtpPacket::parse", call: call_rtp, valid: valid_rtp, alloc: None, weight: 2 },
-        Target { stream: "rtcp", entry: "parse_rtcp_packets", call: call_rtcp, valid: valid_rtcp, alloc: None, weight: 3 },
+        // rtp: parse copies the input (1·len+60); the parsed-packet operations in the same call (clone, 3×marshal,
+        // 2×set_extension) add ≤ 8·len + 2000
+        Target { stream: "rtp", entry: "RtpPacket::parse/ops", call: call_rtp, valid: valid_rtp, alloc: Some((9, 2060)), weight: 2 },
+        // rtcp: theorem 40·len+1280; the re-marshal of the parsed packets in the same call adds ≤ 20·len
+        Target { stream: "rtcp", entry: "parse_rtcp_packets", call: call_rtcp, valid: valid_rtcp, alloc: Some((60, 1280)), weight: 3 },
     ]
 }
 
@@ -255,7 +258,6 @@ pub fn replay_special(run: &mut Run, stream: &str, a: &[&str]) -> bool {
         ("marshal", 5) => run_marshal(run, p(a[0]) as usize, a[1] == "1", p(a[2]) as usize, p(a[3]) as usize, p(a[4]) as u8, true),
         _ => return false,
     }
-    println!("impl: (see oracle lines; outcome recorded in case file)");
     true
 }
 
